@@ -16,6 +16,7 @@ package redis
 
 import (
 	"errors"
+	"net"
 	"sync"
 
 	"github.com/google/uuid"
@@ -27,6 +28,9 @@ type ConnManager struct {
 	mutex *sync.RWMutex
 	// epoch is incremented by Stop so that a connection accepted before Stop cannot register after it.
 	epoch int
+	// handshakes are the accepted transports whose TLS handshake has not finished yet. They are not
+	// connections of the map yet, but Stop has to close them too.
+	handshakes map[net.Conn]struct{}
 }
 
 // NewConnManager returns a connection map.
@@ -35,6 +39,8 @@ func NewConnManager() *ConnManager {
 		m:     map[uuid.UUID]*Conn{},
 		mutex: &sync.RWMutex{},
 		epoch: 0,
+
+		handshakes: map[net.Conn]struct{}{},
 	}
 }
 
@@ -63,6 +69,25 @@ func (mgr *ConnManager) AddConnInEpoch(c *Conn, epoch int) bool {
 	}
 	mgr.m[c.UUID()] = c
 	return true
+}
+
+// AddHandshakeInEpoch remembers the specified transport while its TLS handshake is running, unless the
+// manager has been stopped since the specified epoch, and returns whether the transport was added.
+func (mgr *ConnManager) AddHandshakeInEpoch(c net.Conn, epoch int) bool {
+	mgr.mutex.Lock()
+	defer mgr.mutex.Unlock()
+	if mgr.epoch != epoch {
+		return false
+	}
+	mgr.handshakes[c] = struct{}{}
+	return true
+}
+
+// RemoveHandshake forgets the specified transport when its TLS handshake has finished or failed.
+func (mgr *ConnManager) RemoveHandshake(c net.Conn) {
+	mgr.mutex.Lock()
+	defer mgr.mutex.Unlock()
+	delete(mgr.handshakes, c)
 }
 
 // Conns returns the included connections.
@@ -119,9 +144,18 @@ func (mgr *ConnManager) Stop() error {
 	// Connections accepted so far that have not registered yet must not register any more.
 	mgr.mutex.Lock()
 	mgr.epoch++
+	handshakes := mgr.handshakes
+	mgr.handshakes = map[net.Conn]struct{}{}
 	mgr.mutex.Unlock()
-	if err := mgr.Close(); err != nil {
-		return err
+	// A client that connected to the TLS port and has not finished its handshake is hung up as well.
+	var errs error
+	for c := range handshakes {
+		if err := c.Close(); err != nil {
+			errs = errors.Join(errs, err)
+		}
 	}
-	return nil
+	if err := mgr.Close(); err != nil {
+		errs = errors.Join(errs, err)
+	}
+	return errs
 }
